@@ -226,28 +226,76 @@ func commonPrefixLen(a, b string) int {
 	return n
 }
 
-// zzSiblingStatic: the path is a strict instance (for this method) of a template T while it runs further
-// along the leading static text of another template T2 than T's own leading static text does - i.e. a
-// parameter value coincides with static text of a sibling template. Region of the recorded finding
-// C05/static-sibling-shadows-parameter.
+// zzTokens: a template as a sequence of static bytes and parameter markers (0x100 + part index).
+func zzTokens(t zzTemplate) []int {
+	var out []int
+	for i, pt := range t.Parts {
+		if pt.Param != "" {
+			out = append(out, 0x100+i)
+			continue
+		}
+		for k := 0; k < len(pt.Static); k++ {
+			out = append(out, int(pt.Static[k]))
+		}
+	}
+	return out
+}
+
+// matchShadow: parts[i:] produce p[pos:] (most liberal reading) AND the text at which the parameter part
+// `target` starts begins with byte c.
+func matchShadow(parts []zzPart, i int, p string, pos int, target int, c byte, hit bool) bool {
+	if i == len(parts) {
+		return zz.And(pos == len(p), hit)
+	}
+	pt := parts[i]
+	if pt.Param == "" {
+		n := len(pt.Static)
+		if pos+n > len(p) {
+			return false
+		}
+		if p[pos:pos+n] != pt.Static {
+			return false
+		}
+		return matchShadow(parts, i+1, p, pos+n, target, c, hit)
+	}
+	h := hit
+	if i == target {
+		h = false
+		if pos < len(p) {
+			h = p[pos] == c
+		}
+	}
+	res := false
+	for end := pos; end <= len(p); end++ {
+		res = zz.Or(res, matchShadow(parts, i+1, p, end, target, c, h))
+	}
+	return res
+}
+
+// zzSiblingStatic: some template T (with this method) produces the path - under the most liberal reading -
+// and at the point where T and another template T2, read as strings from the start, first differ, T has a
+// parameter while T2 continues with static text whose first byte is the byte of the path at which T's
+// argument starts: the router enters the static sibling branch first. Region of the recorded finding
+// C05/static-sibling-shadows-parameter (any depth of the route tree; the defect both loses strict instances
+// and, through the missing restore of the remaining text, extracts arguments from the wrong text).
 func zzSiblingStatic(method, p string) bool {
 	res := false
 	for i, t := range zzTemplates {
 		if _, ok := t.Methods[method]; !ok {
 			continue
 		}
-		mt := zzMatches(t, p, true)
+		tt := zzTokens(t)
 		for j, o := range zzTemplates {
 			if i == j {
 				continue
 			}
-			s0, o0 := t.Parts[0].Static, o.Parts[0].Static
-			c := commonPrefixLen(s0, o0)
-			for k := c + 1; k <= len(o0) && k <= len(p); k++ {
-				if c < len(s0) {
-					break // T's own static text diverges from T2's before position k: p cannot follow both
-				}
-				res = zz.Or(res, zz.And(mt, zz.EqString(p[:k], o0[:k])))
+			ot := zzTokens(o)
+			d := 0
+			for d < len(tt) && d < len(ot) && (tt[d] == ot[d] || (tt[d] >= 0x100 && ot[d] >= 0x100)) {
+				d++
+			}
+			if d < len(tt) && d < len(ot) && tt[d] >= 0x100 && ot[d] < 0x100 {
+				res = zz.Or(res, matchShadow(t.Parts, 0, p, 0, tt[d]-0x100, byte(ot[d]), false))
 			}
 		}
 	}
@@ -419,13 +467,13 @@ func HInst(tmpl, lens, methodIdx int) {
 	// that case is asserted inside checkRequest: P3 with the 405 clause)
 	if chosen >= 0 && chosen != tmpl {
 		zz.Cover("instance-went-to-other-template")
-		// allowed only when that template also matches (checked by P1) - and it must be at least as specific:
-		// if T is the only template matching p strictly, the dispatch must be to T
+		// allowed only when that template matches the path as well (the request is ambiguous; P1 checks that the
+		// chosen template really produces it): if T is the only template matching p, the dispatch must be to T
 		others := false
 		for i, o := range zzTemplates {
 			if i != tmpl {
 				if _, ok := o.Methods[method]; ok {
-					others = zz.Or(others, zzMatches(o, p, true))
+					others = zz.Or(others, zzMatches(o, p, false))
 				}
 			}
 		}
@@ -470,8 +518,19 @@ func HRawInst(tmpl, rawKind, methodIdx, prefixIdx int) {
 	rec := &zzRecorder{header: http.Header{}}
 	s.ServeHTTP(rec, &http.Request{Method: method, URL: u, Header: http.Header{}})
 	zz.Cover("raw-instance-requested")
+	zz.Observe("found", found)
+	zz.Observe("calls", seen.calls)
+	zz.Observe("status", rec.status)
+	if found {
+		zz.Observe("route", route.Name())
+		zz.Observe("args", route.Args())
+	}
+	// the router works on the (normalised) escaped text: an argument whose first byte is static text of a
+	// diverging sibling template is inside the recorded static-sibling finding here as well
+	zz.Known("C05/static-sibling-shadows-parameter", zz.Or(zzSiblingStatic(method, zzInstantiate(t, dec)), zzSiblingStatic(method, zzInstantiate(t, raw))))
 	zz.Assert(found == (seen.calls == 1), "P5 (escaped paths): FindPath finds a route exactly when ServeHTTP runs a handler")
 	if !found {
+		zz.Known("C05/static-sibling-shadows-parameter", false)
 		return
 	}
 	zz.Assert(seen.op == route.Name(), "P5 (escaped paths): ServeHTTP and FindPath agree on the operation")
@@ -489,4 +548,5 @@ func HRawInst(tmpl, rawKind, methodIdx, prefixIdx int) {
 		}
 		zz.Assert(same, "escaped paths: lookup and handler both receive the decoded argument values")
 	}
+	zz.Known("C05/static-sibling-shadows-parameter", false)
 }
